@@ -143,6 +143,17 @@ where
         // for the invalidated value.
         let mut cache_opt = self.cache.write().await;
 
+        // Another task may have fetched a valid value while we were waiting for the write lock.
+        if matches!(&*cache_opt, Some(cache) if cache.is_valid()) {
+            return Ok(tokio::sync::RwLockReadGuard::map(tokio::sync::RwLockWriteGuard::downgrade(cache_opt), |co| {
+                co.as_ref().unwrap()
+            }));
+        }
+
+        // Release the invalidated value before requesting the current one. The owner serves no
+        // requests while it waits for all copies of an invalidated value to be dropped.
+        *cache_opt = None;
+
         // Request and receive current value.
         let (value_tx, value_rx) = oneshot::channel();
         let _ = self.req_tx.send(ReadRequest { value_tx }).await;
